@@ -6,6 +6,59 @@ import copy
 from collections import defaultdict as _defaultdict
 
 
+# Edge labels are opaque to the specification.  The harness renders the specification's labels through an alphabet:
+# the letters themselves, multi-character generator names, integers (as in kbmag tables).  A label that is not a
+# one-character string is what tells add_edges(.., elist=False) (one label) from elist=True (a list of labels).
+ALPHABETS = [None,
+             {"a": "s0", "b": "t1", "c": "u2"},
+             {"a": 0, "b": 1, "c": 2}]
+
+
+def alphabet_tag(al):
+    return "" if al is None else "[labels %s]" % ",".join("%s=%r" % kv for kv in sorted(al.items()))
+
+
+def tr_edges(al, es):
+    return [(t, al[l], h) for (t, l, h) in es]
+
+
+_TRC = {}
+
+
+def tr_key(al, key):
+    if al is None:
+        return key
+    ck = (id(al), key)
+    r = _TRC.get(ck)
+    if r is None:
+        r = _TRC[ck] = (key[0], frozenset((t, al[l], h) for (t, l, h) in key[1])) + tuple(key[2:])
+    return r
+
+
+def tr_act(al, act):
+    """the same action with every label rendered through the alphabet"""
+    if al is None:
+        return act
+    ck = (id(al), id(act))
+    hit = _TRC.get(ck)
+    if hit is not None and hit[0] is act:
+        return hit[1]
+    a = dict(act)
+    _TRC[ck] = (act, a)
+    if "edges" in a:
+        a["edges"] = tr_edges(al, a["edges"])
+    if "l" in a:
+        a["l"] = al[a["l"]]
+    if "ls" in a:
+        a["ls"] = [al[l] for l in a["ls"]]
+    for k in ("e1", "e2"):
+        if k in a:
+            a[k] = [a[k][0], al[a[k][1]], a[k][2]]
+    if "m" in a:
+        a["m"] = {al[k]: al[v] for k, v in dict(a["m"]).items()}
+    return a
+
+
 def key_of(st):
     return (frozenset(st["vs"]), frozenset(tuple(e) for e in st["E"]), bool(st.get("built", True)))
 
@@ -161,11 +214,11 @@ def query_battery(f, vs, E):
             return ("edges_in", "edges_in(%r) = %r != %r" % (v, got, want))
     for t in vs:
         for h in vs:
-            labs = sorted(l for (a, l, b) in E if a == t and b == h)
+            labs = sorted((l for (a, l, b) in E if a == t and b == h), key=repr)
             got = f.has_edge(t, h)
             if bool(got) != bool(labs):
                 return ("has_edge", "has_edge(%r,%r) = %r, labels %r" % (t, h, got, labs))
-            got = sorted(f.edge_labels(t, h))
+            got = sorted(f.edge_labels(t, h), key=repr)
             if got != labs:
                 return ("edge_labels", "edge_labels(%r,%r) = %r != %r" % (t, h, got, labs))
             try:
@@ -187,10 +240,10 @@ def query_battery(f, vs, E):
     # acceptance queries must agree with a walk in E and must not move the object
     start = f.start_vertices[0] if f.start_vertices else None
     if start in vs:
-        labels = sorted({l for (_, l, _) in E}) + ["z"]
+        labels = sorted({l for (_, l, _) in E}, key=repr) + ["z"]
         step = {(t, l): h for (t, l, h) in E}
         words = [[]] + [[a] for a in labels] + [[a, b] for a in labels for b in labels]
-        single = all(len(l) == 1 for l in labels)
+        single = all(isinstance(l, str) and len(l) == 1 for l in labels)
         for w in words:
             if single:
                 w = "".join(w)
